@@ -72,6 +72,10 @@ funcs: spifhash_jenkins
 #ifndef MAXB
 # define MAXB 48
 #endif
+#ifndef ALO
+# define ALO 0      /* alignments ALO..AHI */
+# define AHI 7
+#endif
 
 #if defined(U_JENKINS)
 # define BYTES(K)        (K)
@@ -115,13 +119,13 @@ void harness(void)
 #endif
         w_seed = seed;
         expect = REF(kb, K, seed);
-        for (A = 0; A < 8; A++) {
+        for (A = ALO; A <= AHI; A++) {
             spif_uint8_t buf[MAXB + 16];        /* symbolic surroundings */
             for (i = 0; i < BYTES(K); i++) {
                 buf[A + i] = kb[i];
             }
             __CPROVER_assert(HASH(buf + A, K, seed) == expect, "hash value equals the published definition");
-#ifdef ALSO
+#if defined(ALSO) && !defined(NO_ALSO)
             __CPROVER_assert(ALSO(buf + A, K, seed), "byte-wise and word-wise Jenkins variants agree");
 #endif
         }
